@@ -37,6 +37,7 @@ type Faults struct {
 	ReadEOF      bool // the failing read returns io.EOF instead of an error
 	ShortWrite   bool // the failing write writes half of its data first
 	StallReading bool // this endpoint's Reads block (peer sees back-pressure) - set/cleared by the harness
+	HoldReadAt   int  // the k-th Read copies its data and then waits for ReleaseRead before it returns
 }
 
 // Conn is one end of the in-memory connection.
@@ -51,10 +52,12 @@ type Conn struct {
 	wTimer    *time.Timer
 	closed    bool
 
-	F      Faults
-	Reads  int
-	Writes int
-	Closes int
+	F       Faults
+	held    chan struct{} // closed by ReleaseRead
+	Holding chan struct{} // closed when a read is being held
+	Reads   int
+	Writes  int
+	Closes  int
 	// OnRead is called with the number of bytes consumed so far (for "afterwards" accounting)
 }
 
@@ -107,6 +110,13 @@ func (c *Conn) Read(p []byte) (int, error) {
 				h.buf = h.buf[k:]
 				h.consumed += k
 				h.cond.Broadcast()
+				if f.HoldReadAt != 0 && n == f.HoldReadAt && c.held != nil {
+					// the read has completed successfully; its return is delayed until the harness lets go
+					h.mu.Unlock()
+					close(c.Holding)
+					<-c.held
+					h.mu.Lock()
+				}
 				return k, nil
 			}
 			if h.wclosed {
@@ -202,6 +212,26 @@ func (c *Conn) SetStall(on bool) {
 	c.rd.mu.Lock()
 	c.rd.cond.Broadcast()
 	c.rd.mu.Unlock()
+}
+
+// ArmHoldRead makes the k-th Read (absolute count) complete but return only after ReleaseRead.
+func (c *Conn) ArmHoldRead(k int) {
+	c.mu.Lock()
+	c.F.HoldReadAt = k
+	c.held = make(chan struct{})
+	c.Holding = make(chan struct{})
+	c.mu.Unlock()
+}
+
+// ReleaseRead lets a held read return.
+func (c *Conn) ReleaseRead() {
+	c.mu.Lock()
+	h := c.held
+	c.held = nil
+	c.mu.Unlock()
+	if h != nil {
+		close(h)
+	}
 }
 
 // SetFaults replaces the fault plan.
